@@ -134,25 +134,31 @@ def fail_late_arrival(k: int, first_sync: bool, late_sync: bool):
     h.end()
 
 
-def _mk_fail_race(pto):
-    def lem(sp: int, pstep: int, first_big: bool):
+def _mk_fail_race(pto, pto2=None):
+    def lem(sp: int, pstep: int, first_big: bool, pstep2: int):
         """
-        pre: 0 <= sp < 4 and 1 <= pstep <= 26
+        pre: 0 <= sp < 4 and 1 <= pstep <= 26 and pstep < pstep2 <= 27
         post: True
         """
+        if pto2 is None and pstep2 != pstep + 1:
+            return
         n = 2
         sizes = [5 if first_big else 1, 1]
         syncs = SYNC_PATTERNS[sp][1:]
-        w = World(3, 3, 0.2, Client(fail_at=1), pre_step=[pstep], pre_to=[pto])
+        w = World(3, 3, 0.2, Client(fail_at=1), pre_step=[pstep] if pto2 is None else [pstep, pstep2], pre_to=[pto] if pto2 is None else [pto, pto2])
         for i in range(n):
             w.producer(f"p{i}", Upd(i, sizes[i]), syncs[i])
         w.run()
-        if w.sched.k == 1:
+        if w.sched.k == (1 if pto2 is None else 2):
             h.reach("preempted")
         check_failstop(w, n, syncs, 1)
         h.end()
 
-    lem.__name__ = lem.__qualname__ = f"fail_race_to{pto}"
+    lem.__name__ = lem.__qualname__ = f"fail_race_to{pto}" + ("" if pto2 is None else f"_then{pto2}")
+    if pto2 is not None:
+        return h.lemma(timeout=2400, thorough_timeout=2400, funcs=FUNCS, reach=("end", "preempted"), tier="thorough",
+                       bounds="as fail_race_to*, with TWO preemptions at yield points s1 < s2 <= 27 switching to "
+                              f"{['consumer', 'producer 0', 'producer 1'][pto]} and then to {['consumer', 'producer 0', 'producer 1'][pto2]}")(lem)
     return h.lemma(timeout=300, thorough_timeout=900, funcs=FUNCS, reach=("end", "preempted"),
                    bounds="2 updates, first API call fails; ONE preemption at any of the first 26 yield points (incl. between the producer's failed-check "
                           f"and its put, and inside the consumer's failure drain) switching to thread {['consumer', 'producer 0', 'producer 1'][pto]}")(lem)
@@ -161,7 +167,10 @@ def _mk_fail_race(pto):
 for _p in range(3):
     _f = _mk_fail_race(_p)
     globals()[_f.__name__] = _f
-del _f, _p
+    for _q in range(3):
+        _f = _mk_fail_race(_p, _q)
+        globals()[_f.__name__] = _f
+del _f, _p, _q
 
 
 # ------------------------------------------------------------------------------------------------ F3: failure delivered inside a map/parallel branch
